@@ -13,9 +13,11 @@ def run(tier: str, seed: int):
                 + list(F.fam_shapes(1, 4, batch=2)))
         serial = list(F.fam_limits(1, 3, batch=1))
         rule = 'all DAG shapes n<=4 x type assignment {None,1,2}; n<=3 with faults/deaths and empty polls; pre-cached subsets; every completion order; oracle at every rest point'
+        e3c = list(F.fam_e3(F.fam_limits(1, 3, tnames=('TA', 'TB'), faults=True), workers=(1, 2, None)))
     else:
         cfgs = (list(F.fam_limits(1, 4, batch=3, faults=True, tnames=('TA', 'TB', 'TC', 'TD'), stutter=True))
                 + list(F.fam_limits(5, 5, batch=2, tnames=('TB', 'TC'))) + list(F.fam_shapes(1, 5, batch=2)))
         serial = list(F.fam_limits(1, 4, batch=1))
         rule = 'n<=4 x {None,1,2,3} x faults x stutter, batch<=3; n=5'
-    return run_e2_property('C05', tier, seed, cfgs, serial_configs=serial, rule=rule, assumptions=ASSUME)
+        e3c = list(F.fam_e3(F.fam_limits(1, 3, tnames=('TA', 'TB', 'TC'), faults=True), workers=(1, 2, 3, None), cpu_count=3)) + list(F.fam_e3(F.fam_limits(4, 4, tnames=('TA', 'TB')), workers=(2, 3), cpu_count=3, liveness=False))
+    return run_e2_property('C05', tier, seed, cfgs, serial_configs=serial, e3_configs=e3c, rule=rule, assumptions=ASSUME)
